@@ -101,6 +101,15 @@ def job_spell(j):
         sig1 = Chem.MolToSmiles(mh) + '|' + ','.join(sorted(a.GetPropsAsDict().keys().__str__() for a in mh.GetAtoms()))
         if sig0 != sig1:
             outs.append(['mol-object-modified', smi, {'exc': 'CallerObjectModified'}])
+        # ... and molecule objects the caller keeps in Kekule form (aromatic flags cleared), with and without explicit hydrogens
+        try:
+            mk = Chem.MolFromSmiles(smi)
+            Chem.Kekulize(mk, clearAromaticFlags=True)
+            outs.append(['mol-object-kekule', smi, decomp(sch, mk)])
+            mkh = Chem.AddHs(mk)
+            outs.append(['mol-object-kekule-H', smi, decomp(sch, mkh)])
+        except Exception:
+            pass
         m0 = Chem.MolFromSmiles(smi)
         six = [set(r) for r in m0.GetRingInfo().AtomRings() if len(r) == 6 and all(m0.GetAtomWithIdx(a).GetSymbol() == 'C' for a in r)]
         fused = any(len(a & b) >= 2 for i, a in enumerate(six) for b in six[i + 1:])
